@@ -6,7 +6,11 @@ rewritten with one of:
   renameall  alpha-rename every local variable of one function at once;
   kwsort   reverse the keyword-argument order of every call in one function (keywords only; evaluation
            order of side-effect-free argument expressions is immaterial for the analysed code);
-  pass     insert a `pass` statement at the top of one function body.
+  pass     insert a `pass` statement at the top of one function body;
+  swapeq   exchange the operands of every ==, !=, is, is not comparison of one function;
+  ifnot    rewrite every two-branch `if a: X else: Y` of one function as `if not a: Y else: X`;
+  annot    drop the annotations of annotated local assignments;
+  msg      reword the message strings of raise statements.
 The property's checks are then run on the copy.  A *new violation* is a false alarm of the rule and fails
 the self-test; an ANALYSIS-ERROR (anchor not recognised any more) is counted separately as `refused` —
 the check refuses to give a verdict rather than raising an alarm.
@@ -107,6 +111,54 @@ def _apply(kind: str, src: str, qual: str, rng: random.Random) -> tp.Optional[tp
         for old in names:
             _Rename(old, old + '_rn').visit(fn)
         what = f'{len(names)} locals'
+    elif kind == 'swapeq':
+        # exchange the operands of every symmetric comparison (==, !=, is, is not) in the function
+        n = 0
+        for c in ast.walk(fn):
+            if isinstance(c, ast.Compare) and len(c.ops) == 1 and isinstance(c.ops[0], (ast.Eq, ast.NotEq, ast.Is, ast.IsNot)):
+                c.left, c.comparators[0] = c.comparators[0], c.left
+                n += 1
+        if not n:
+            return None
+        what = f'{n} comparisons'
+    elif kind == 'ifnot':
+        # if a: X else: Y  ->  if not a: Y else: X   (two-branch ifs whose else is not an elif)
+        n = 0
+        for i in ast.walk(fn):
+            if isinstance(i, ast.If) and i.orelse and not (len(i.orelse) == 1 and isinstance(i.orelse[0], ast.If)):
+                i.test = ast.UnaryOp(op=ast.Not(), operand=i.test)
+                i.body, i.orelse = i.orelse, i.body
+                n += 1
+        if not n:
+            return None
+        what = f'{n} ifs'
+    elif kind == 'annot':
+        # drop the annotation of annotated local assignments (x: T = v -> x = v)
+        n = 0
+
+        class T(ast.NodeTransformer):
+            def visit_AnnAssign(self, node):
+                nonlocal n
+                if node.value is not None and isinstance(node.target, ast.Name):
+                    n += 1
+                    return ast.Assign(targets=[node.target], value=node.value)
+                return node
+        T().visit(fn)
+        if not n:
+            return None
+        what = f'{n} annotations'
+    elif kind == 'msg':
+        # change every message string of raise statements
+        n = 0
+        for r in ast.walk(fn):
+            if isinstance(r, ast.Raise) and isinstance(r.exc, ast.Call):
+                for a in ast.walk(r.exc):
+                    if isinstance(a, ast.Constant) and isinstance(a.value, str):
+                        a.value = a.value + ' (reworded)'
+                        n += 1
+        if not n:
+            return None
+        what = f'{n} messages'
     elif kind == 'kwsort':
         n = 0
         for c in ast.walk(fn):
@@ -171,7 +223,7 @@ def run_for_property(prop: str, repo: str, seed: int = 0, budget: int = 48, jobs
     sweep = [(prop, repo, q, 'renameall', rng.randrange(1 << 30), frozenset(base)) for q in cands[:int(os.environ.get('SFA_BENIGN_SWEEP', '96'))]]
     work = []
     for i, q in enumerate(cands):
-        for kind in ('rename', 'kwsort', 'pass'):
+        for kind in ('rename', 'kwsort', 'pass', 'swapeq', 'ifnot', 'annot', 'msg'):
             work.append((prop, repo, q, kind, rng.randrange(1 << 30), frozenset(base)))
     rng.shuffle(work)
     work = sweep + work[:budget]
